@@ -2,7 +2,9 @@ package main
 
 import (
 	"fmt"
+	"go/constant"
 	"go/token"
+	"go/types"
 
 	"golang.org/x/tools/go/ssa"
 )
@@ -57,6 +59,36 @@ func (r *Run) callVF(caller *frame, pos token.Pos, fn *ssa.Function, args []Valu
 		label := strArg(args[0])
 		n := r.concInt(args[1], "vf.BytesN n")
 		return r.symBytes(label, int(n))
+	case "Defined":
+		pkg := r.m.prog.ImportedPackage(strArg(args[0]))
+		if pkg == nil {
+			panic(unsupported("vf.Defined: package not loaded: " + strArg(args[0])))
+		}
+		tn := strArg(args[1])
+		v := args[2].(*Term)
+		res := tFalse
+		n := 0
+		sc := pkg.Pkg.Scope()
+		for _, name := range sc.Names() {
+			c, ok := sc.Lookup(name).(*types.Const)
+			if !ok {
+				continue
+			}
+			nt, ok := c.Type().(*types.Named)
+			if !ok || nt.Obj().Name() != tn {
+				continue
+			}
+			iv, ok := constant.Int64Val(constant.ToInt(c.Val()))
+			if !ok {
+				continue
+			}
+			n++
+			res = tOr(res, tEq(v, mkBV(64, uint64(iv))))
+		}
+		if n == 0 {
+			panic(unsupported("vf.Defined: no constants of type " + tn))
+		}
+		return res
 	case "OpaqueBytes":
 		return Slice{S: []Value{}, SymLen: args[0].(*Term)}
 	case "Choose":
